@@ -8,19 +8,25 @@ PROPERTIES = ["C20"]
 MANIFEST = {
     "C20": {
         "technique": "Lean 4 proof (checked-memory model of Process::Arguments refined to a declarative getopt_long-convention parser; "
-                     "model of splitCommandLine refined to a reference tokenizer with termination; argv/environment handed to execvpe) "
-                     "+ differential correspondence model vs real Process.cpp + tests against the real kernel",
-        "text": "Theorems over all argument vectors and option tables (result sequence = getopt conventions, no read outside the argument "
-                "strings, termination), all command lines (tokenizer refinement, termination) and all argv/environment inputs (what reaches "
-                "execvpe); the model is tied to the current Process.cpp on every run by executing identical op lines on both (exhaustive "
-                "small scopes, exactly sized heap buffers under ASan, watchdog) and an independent Python reference; exec, pipes, exit codes "
-                "and payload delivery are run against the real kernel with a helper child.",
-        "note": "Trusted: Lean kernel + standard axioms; hand translation of Process.cpp into the model (validated by the correspondence run); "
-                "checked-memory abstraction (one block per argv word / option name); Map iteration order = sorted by key (C01); the option "
-                "table holds valid C strings.  PARTIAL in the proof sense: vfork/execvpe/pipe/dup2/waitpid/select/read/write are the "
-                "kernel's - the model ends at 'what is passed to execvpe and which pipes are requested'; exit codes, end-of-file and payload "
-                "delivery are only tested (redirection combinations x sizes around the pipe capacity, exit codes 0..255).  fd bookkeeping "
-                "'0 = closed' assumes pipe() never returns descriptor 0 (stdin of the parent is open).",
+                     "model of splitCommandLine refined to a reference tokenizer with termination on every buffer; argv/environment handed "
+                     "to execvpe; Process object and environment state machines) + differential correspondence model vs real Process.cpp "
+                     "+ tests against the real kernel with a helper child",
+        "text": "Theorems over all option tables and argument vectors (result sequence = getopt conventions, no read outside the argument "
+                "strings / option names, termination), all command lines (tokenizer refinement, quoting round trip, termination on every "
+                "buffer), all executable/argument/environment inputs (what reaches execvpe), all call histories of a Process object "
+                "(idle => no descriptor held) and the environment setters/getters; the model is tied to the current Process.cpp on every "
+                "run by executing identical op lines on both (exhaustive small scopes, exactly sized heap buffers under ASan, watchdog) and "
+                "by an independent Python reference; exec, pipes, exit codes 0..255 and payload delivery around the pipe capacity are run "
+                "against the real kernel.",
+        "note": "Trusted: Lean kernel + standard axioms; hand translation of Process.cpp (POSIX branch) into the model, validated by the "
+                "correspondence run, not proved; checked-memory abstraction (one block per argv word / option name, the option table holds "
+                "null or NUL-free terminated names); Map iteration = ascending key order (C01).  Long options match exactly (no GNU "
+                "abbreviations), non-options are returned in order as character 0.  PARTIAL in the proof sense (theorem "
+                "process_delivery_partial, OPEN block in Props.lean): vfork/execvpe/pipe/dup2/waitpid/select/read/write are the kernel's - "
+                "the model ends at 'what is passed to execvpe and which pipes are requested'; what the child observes, exit codes, "
+                "end-of-file and payload delivery are tested (every start/open form x redirection mask x environment; masks x sizes "
+                "0,1,65535,65536,65537,1 MiB; exit codes), not proved.  The '0 = closed' descriptor bookkeeping assumes pipe() never "
+                "returns descriptor 0.  The model mirrors the code repaired by fixes/args/0001-0006.",
         "design_ref": "DESIGN.md 3/C20",
     }
 }
@@ -479,6 +485,10 @@ def histories_for(ctx):
         f"with argv/environment echoed back; io: redirection masks 0..7 x payload sizes {SIZES} ({len(il)} runs, stdin payload written and "
         f"stdout/stderr read to end-of-file, CRC-32 compared); exit: {len(xl)} exit codes through start(command)+join; Process object: every sequence of <= {3 if quick else 4} calls over {len(POPS)} calls (start, open with masks 0/1/7, join, kill, close, isRunning, read with stream selection, destructor) + random sequences ({len(ph)} histories; pid/descriptor bookkeeping, results, EINVAL), a child blocked on its stdin is killed (4 masks); environment: {len(eh)} random histories of setEnvironmentVariable/getEnvironmentVariable/getEnvironmentVariables mixed with launches that inherit the environment. "
         "distinct_nontrivial = distinct observation lines with >= 2 results / >= 2 words / a child run")
+    ctx.cov["open_statements"] = [
+        "run-time delivery (the child observes argv/environ as given, join returns its exit code, redirected bytes arrive intact up to "
+        "end-of-file): needs a kernel model; proved part = process_delivery_partial / argv_env_exact* (what is passed to execvpe, which pipes "
+        "are requested); the rest is tested against the real kernel by the run/io/exit/p/killtest streams"]
     ctx.cov["exhaustive"] = True
     ctx.cov["exhaustive_scope"] = (f"argv words<={AMAX[quick]} over {len(WORDS)}-word alphabet: {len(ea)}; command lines <= {SMAX[quick]} "
                                    f"symbols over 4: {len(es)}; redirection masks 8 x sizes {len(SIZES)}; exit codes: {len(xl)}")
